@@ -761,6 +761,8 @@ def default_of(e, ty):
         return new_map(h)
     if h == '()':
         return UNIT
+    if h == 'Token' and 'tantivy' in ty:
+        return _token_default(e, ty, [])
     if (h, 'Default', 'default') in e.prog.by_key:
         return e.call('<%s as Default>::default' % ty, [])
     if h.endswith('Builder') or h in ('DefaultHashBuilder', 'RandomState'):
@@ -975,3 +977,23 @@ def _dyn_to_string(e, c, a):
         from .m_str import str_bytes
         return Str(list(str_bytes(v)))
     return mk_str('<%s>' % (getattr(v, 'ty', None) or type(v).__name__))      # Display of an error value: text abstracted (formatting is not the subject)
+
+
+# ---------------------------------------------------------------- tantivy::tokenizer::Token (plain struct stub) / boxed errors
+@model(r'<tantivy::tokenizer::Token as Default>::default|<Token as Default>::default', 'tantivy Token::default (plain struct: offset_from, offset_to, position, text, position_length)')
+def _token_default(e, c, a):
+    return Agg([usize(0), usize(0), usize((1 << 64) - 1), Str(), usize(1)], ty='TantivyToken',
+               names=['offset_from', 'offset_to', 'position', 'text', 'position_length'])
+
+
+@model(r'<&str as Into<Box<dyn std::error::Error>>>::into|<String as Into<Box<dyn std::error::Error>>>::into|<.* as Into<Box<dyn std::error::Error.*>>>::into|<Box<dyn std::error::Error.*> as From<.*>>::from')
+def _into_box_error(e, c, a):
+    return Opaque('box', cell=Cell(a[0]), rt='Box')
+
+
+@model(r'<Arc<dyn .*> as Deref>::deref')
+def _arc_dyn_deref(e, c, a):
+    b = a[0].c.v if isinstance(a[0], Ref) else a[0]
+    if isinstance(b, Opaque) and b.kind == 'box':
+        return Ref(b.cell)
+    raise Unsupported('Arc<dyn> deref of %r' % (b,))
